@@ -107,6 +107,7 @@ pub fn enc_any(v: &dyn std::any::Any) -> Option<u64> {
     if let Some(x) = v.downcast_ref::<String>() { return Some(x.encode()); }
     if let Some(x) = v.downcast_ref::<Result<u64, u64>>() { return Some(x.encode()); }
     if let Some(x) = v.downcast_ref::<Result<String, String>>() { return Some(x.encode()); }
+    if let Some(x) = v.downcast_ref::<Slow>() { return Some(x.encode()); }
     None
 }
 
@@ -151,4 +152,34 @@ pub fn poll_once<F: Future + ?Sized>(f: Pin<&mut F>) -> Poll<F::Output> {
     let w = noop_waker();
     let mut cx = Context::from_waker(&w);
     f.poll(&mut cx)
+}
+
+/// A value whose `Clone` can be held by the harness, so that two lookups overlap in real time
+/// while one of them is inside the cache (holding whatever guard the engine holds while cloning).
+#[derive(Debug)]
+pub struct Slow(pub u64);
+thread_local! {
+    pub static HOLD_CLONES: std::cell::Cell<bool> = std::cell::Cell::new(false);
+}
+pub static CLONES_HELD: std::sync::atomic::AtomicUsize = std::sync::atomic::AtomicUsize::new(0);
+pub static RELEASE_CLONES: std::sync::atomic::AtomicBool = std::sync::atomic::AtomicBool::new(false);
+impl Clone for Slow {
+    fn clone(&self) -> Slow {
+        if HOLD_CLONES.with(|h| h.get()) {
+            CLONES_HELD.fetch_add(1, std::sync::atomic::Ordering::SeqCst);
+            let t0 = std::time::Instant::now();
+            while !RELEASE_CLONES.load(std::sync::atomic::Ordering::SeqCst) && t0.elapsed() < std::time::Duration::from_secs(3) {
+                std::thread::sleep(std::time::Duration::from_millis(1));
+            }
+        }
+        Slow(self.0)
+    }
+}
+impl cachelito_core::MemoryEstimator for Slow {}
+impl Encode for Slow {
+    fn encode(&self) -> u64 { 2 * self.0 }
+    fn estimate(&self) -> usize { 8 }
+}
+pub fn body_slow(_f: usize, _x: u32) -> Slow {
+    Slow(executed().v)
 }
